@@ -19,9 +19,13 @@ MANIFEST = {
             "unique per event and below the event counter, parents are earlier started tracks; "
             "created = started + pending as multisets (transported once), started = live + "
             "finished; InitializeTracks writes distinct initializers into distinct vacant slots; "
+            "(both track orders: stable partition by charge modelled by its specification); "
             "counters are exact after every step; capacity is checked before any initializer is "
-            "written; reset re-establishes the invariant; progress (liveness under a bounded-"
-            "lifetime assumption; physical liveness partial).  Correspondence: the real "
+            "written; reset re-establishes the invariant; all of it for every state reachable by "
+            "the Stepper protocol (inv_reachable, induction over the op sequence); progress: a step "
+            "starts exactly min(vacancies, queued) tracks; liveness proved for outcomes that kill "
+            "every track in one step without secondaries (liveness_drain_partial); TrackStatus/"
+            "TrackOrder enumerators regenerated from Types.hh (enums_match_source).  Correspondence: the real "
             "ExtendFromPrimaries/InitializeTracks/pre-step/InteractionApplier/tracking-cut/"
             "ExtendFromSecondaries actions and CoreState::reset on a CoreState built from "
             "SimpleTestBase with a scripted interactor, dumped after every action, exact diff.",
@@ -368,8 +372,12 @@ def run(ctx):
         "sequential execution of kernel loops (OpenMP event-level build); std::stable_partition, "
         "std::remove_if, std::exclusive_scan modelled by their specification",
         "32-bit overflow of counters/track ids not modelled (needs > 4e9 tracks per event)",
-        "progress: liveness is proved under the assumption that every track dies within K steps "
-        "and emits finitely many secondaries; that real physics satisfies it is outside the model",
+        "progress: per-step progress is proved for every outcome; liveness is proved only for "
+        "the case K = 1 without secondaries (every track killed in its first step): the general "
+        "'dies within K steps, finitely many secondaries' statement and the fact that real "
+        "physics satisfies it are not proved",
+        "fill_sequence over `indices` is modelled as range(number of track slots): the indices "
+        "collection is resized to the number of track slots in TrackInitData.hh",
         "reseed (track counters zeroed) is only claimed at idle states (no live or pending "
         "tracks), as the Stepper documentation requires",
     ]
